@@ -422,6 +422,76 @@ def rule_kind(ctx, rep):
             rep.check(ge and gl, "C02.enosys", gname + ".guard", "fallback taken exactly on ret<0 && errno==ENOSYS", "fallback not guarded by ret<0 && errno==ENOSYS", [c.where()])
 
 
+# documented / hand-confirmed lock-order edges (holder -> acquired); a vanished edge is an anchor change (inconclusive)
+LOCK_EDGES = [
+    ("@rcu_gp_lock", "@rcu_registry_lock", "synchronize_rcu takes the registry lock inside the grace-period lock (src/urcu.c:98-112)"),
+    ("@defer_thread_mutex", "@rcu_defer_mutex", "defer (un)registration"),
+    ("@rcu_defer_mutex", "@rcu_gp_lock", "rcu_defer_barrier_thread runs synchronize_rcu under rcu_defer_mutex"),
+    ("@call_rcu_mutex", "@cds_lfht_fork_mutex", "call_rcu_before_fork calls the hash table's before_fork hook"),
+    ("urcu_poll_worker_state.lock", "@call_rcu_mutex", "start_poll queues its worker through call_rcu under the poll lock"),
+    ("cds_lfht.resize_mutex", "@rcu_gp_lock", "resize waits for grace periods under resize_mutex"),
+]
+
+
+def rule_lockorder(ctx, rep):
+    """T6: per flavor, the lock-order graph of (flavor library + liburcu-cds) - 'm acquired while h may be held', through
+    direct calls, resolved function-pointer calls (rcu_flavor_struct, urcu_atfork, mm types, work-queue and call_rcu callbacks)
+    and caller contexts - is acyclic; a thread is never joined while holding a lock its body may take; a futex sleeper never
+    holds a lock that every path of one of its wakers must take first; in-library callbacks run with no library lock held."""
+    from .. import lockorder
+    for fl in ALL:
+        F = FL[fl]
+        g = lockorder.LibGraph({fl: ctx.mod(F.lib, "flat"), "cds": ctx.mod("cds", "flat")})
+        for f in g.fns.values():
+            rep.touch(f)
+        E = g.edges()
+        pat.require(len(E) >= 6, "%s: lock-order graph has only %d edges" % (fl, len(E)))
+        cyc = g.cycles(E)
+        selfe = [(a, b) for (a, b) in E if a == b]
+        if not cyc and not selfe:
+            rep.ok("C02.lockorder", fl + ".acyclic", "lock-order graph acyclic: %d locks, %d edges" % (len(set(x for e in E for x in e)), len(E)),
+                   ["%s -> %s" % e for e in sorted(E)][:6])
+        for c in cyc:
+            sites = []
+            for a, b in zip(c, c[1:]):
+                sites.append("%s -> %s at %s" % (a, b, E[(a, b)][0]))
+            rep.bad("C02.lockorder", fl + ".cycle." + "→".join(x.lstrip("@") for x in c), "lock-order cycle: two threads taking these locks in the two orders deadlock", sites)
+        for a, b in selfe:
+            rep.bad("C02.lockorder", fl + ".reacquire." + a.lstrip("@"), "non-recursive mutex %s may be acquired while already held" % a, E[(a, b)][:3])
+        for a, b, why in LOCK_EDGES:
+            if (a, b) not in E:
+                raise Broken("%s: documented lock-order edge %s -> %s (%s) not found: anchors changed" % (fl, a, b, why))
+        # join under lock
+        js = g.joins()
+        pat.require(len(js) >= 3, "%s: pthread_join sites" % fl)
+        for i, held, key, thr in js:
+            if not thr:
+                thr = [(t, g.acq_trans().get(t, set())) for t in g.thread_roots]
+            clash = sorted(set(l for t, acq in thr for l in acq if l in held))
+            rep.check(not clash, "C02.lockorder", "%s.join@%s:%d" % (fl, i.origin_fn, i.line), "thread %s joined holding %s, none of which its body takes" % ([t for t, _ in thr], sorted(held) or "no lock"),
+                      "pthread_join while holding %s, which the joined thread (%s) may need before it can exit: deadlock" % (clash, [t for t, _ in thr]), [i.where()])
+        # futex sleepers vs. wakers
+        waits, wakes = g.futex_sites()
+        pat.require(waits and wakes, "%s: futex sites" % fl)
+        ctxh = g.context()
+        n = 0
+        for wt in waits:
+            f = wt.fn
+            held = set(g.held(f).get(wt.id, ())) | ctxh[f.name]
+            word = pat.last_field(wt.d["aps"][1]) if wt.d["aps"][1] else None
+            for wk in wakes:
+                if not wk.d["aps"][1] or pat.last_field(wk.d["aps"][1]) != word or word is None:
+                    continue
+                n += 1
+                need = g.must_acquire_before(wk.fn, wk) | set(x for x in g.held(wk.fn).get(wk.id, ()))
+                clash = sorted(held & need)
+                rep.check(not clash, "C02.lockorder", "%s.sleep@%s:%d/wake@%s:%d" % (fl, f.name, wt.line, wk.fn.name, wk.line),
+                          "sleeper on %s holds %s; its waker needs none of them" % (word, sorted(held) or "no lock"),
+                          "the thread sleeping on %s holds %s, which the waking path in %s must acquire before it reaches FUTEX_WAKE: neither can proceed" % (word, clash, wk.fn.name),
+                          [wt.where(), wk.where()])
+        pat.require(n >= 3, "%s: only %d futex sleeper/waker pairs matched" % (fl, n))
+
+
 RULES = [
     ("C02.sb-upd", rule_sb_upd),
     ("C02.sb-rd", rule_sb_rd),
@@ -432,5 +502,6 @@ RULES = [
     ("C02.locks", rule_locks),
     ("C02.self", rule_self),
     ("C02.kind", rule_kind),
+    ("C02.lockorder", rule_lockorder),
 ]
 FLOORS = {}
